@@ -104,7 +104,7 @@ PROPS['C16'] = dict(
 )
 
 PROPS['C17'] = dict(
-    theorems=['prefix_trim', 'no_cross_match', 'same_tenant_match', 'tenant_isolation'],
+    theorems=['prefix_trim', 'no_cross_match', 'same_tenant_match', 'tenant_isolation', 'identifiers_resolve_within_the_mount_point', 'connect_leaves_other_tenants_alone'],
     families=[dict(name='mount', corr='Mount', runs=[('random', 150, 2000)]),
               dict(name='crdt', corr='DState', runs=[('tenants', 150, 2500)]),
               dict(name='broker', corr='Broker', runs=[('tenants', 32, 400), ('wills', 16, 200)], par=8)],
